@@ -81,7 +81,7 @@ pub fn ref_field(visible: &str, w: usize, align: Align, truncate: bool) -> Vec<S
     v
 }
 
-const CLASSES: [&str; 5] = ["ascii", "multibyte-1col", "wide-2col", "ansi", "combining"];
+const CLASSES: [&str; 6] = ["ascii", "multibyte-1col", "wide-2col", "ansi", "combining", "tabs"];
 
 fn content(rng: &mut Rng, class: usize, cols: usize) -> String {
     let mut s = String::new();
@@ -98,6 +98,11 @@ fn content(rng: &mut Rng, class: usize, cols: usize) -> String {
             2 if cols - c >= 2 && rng.chance(1, 2) => {
                 s.push(*rng.pick(&wide));
                 c += 2;
+            }
+            5 if cols - c >= 8 && rng.chance(1, 4) => {
+                // a TAB is eight columns of blanks by the time the field is laid out (default tab width)
+                s.push('\t');
+                c += 8;
             }
             4 if c > 0 && rng.chance(1, 3) => {
                 s.push('\u{301}'); // combining acute accent, zero columns
@@ -147,10 +152,27 @@ pub fn check_field_via(carrier: usize, second_line: bool, width: usize, align: O
         }
     };
     let m = msg.to_string();
+    // what the field is laid out from: the content with its tabs expanded
+    let expanded = msg.replace('\t', "        ");
+    let msg = expanded.as_str();
     let style = if carrier >= 2 {
         let text = m.clone();
-        style.with_key(key, move |_: &indicatif::ProgressState, w: &mut dyn std::fmt::Write| {
-            let _ = w.write_str(&text);
+        // the key's output reaches the writer through each entry point of fmt::Write
+        let route = m.len() % 3;
+        style.with_key(key, move |_: &indicatif::ProgressState, w: &mut dyn std::fmt::Write| match route {
+            0 => {
+                let _ = w.write_str(&text);
+            }
+            1 => {
+                for c in text.chars() {
+                    let _ = w.write_char(c);
+                }
+            }
+            _ => {
+                for c in text.chars() {
+                    let _ = write!(w, "{}", c);
+                }
+            }
         })
     } else {
         style
@@ -282,7 +304,7 @@ fn run_case(seed: u64, idx: u64, exhaustive_n: u64) -> CaseOut {
         };
         align = *rng.pick(&aligns);
         truncate = rng.chance(1, 2);
-        class = rng.usize(5);
+        class = rng.usize(6);
         carrier = if rng.chance(1, 2) { 0 } else { rng.usize(CARRIERS.len()) };
         second_line = rng.chance(1, 5);
         cols = match rng.below(4) {
